@@ -651,6 +651,37 @@ def contains_eoi_then_dollar(r):
     return not eoi_safe_p(r)
 
 
+def def_stream_in_scope(ws):
+    """DefParser.v treats a right-hand side / the error type as ONE opaque token (o10; rendered `x`) and an
+    identifier token as a non-keyword identifier. A perturbed stream is compared only when that reading is
+    the one syn has too: every o10 stands exactly where an expression (or the error type) is expected and is
+    followed by the terminator, every `=>` / rule-level `=` / `=?` is followed by exactly one o10, and the
+    keywords `let` / `type` are not used where syn wants an identifier. Everything else is Rust-expression
+    territory (`=> * x`, `=> 'c'?`, `$ x` with x the placeholder ...): syn's job, not modelled, skipped."""
+    n = len(ws)
+    for i, w in enumerate(ws):
+        prev = ws[i - 1] if i else None
+        nxt = ws[i + 1] if i + 1 < n else None
+        if w == "o10":
+            if prev == "?":
+                if i < 2 or ws[i - 2] != "o1":
+                    return False
+            elif prev not in ("o4", "o1"):
+                return False
+            if nxt not in ("o0", "o2"):
+                return False
+        elif w == "o4":
+            if nxt != "o10":
+                return False
+        elif w == "o1":
+            is_let = i >= 2 and ws[i - 2] == "ilet" and ws[i - 1].startswith("i")
+            if not is_let and not (nxt == "o10" or (nxt == "?" and i + 2 < n and ws[i + 2] == "o10")):
+                return False
+        elif w in ("ilet", "itype") and prev in ("$", "ilet", "irule", "itype"):
+            return False
+    return True
+
+
 def check_def_grammar(ctx, only_malformed=False):
     """real make_lexer_parser vs the model DefParser.parse_def on printed definitions and on perturbed
     token streams (ill-formed ones included): same verdict, same AST"""
@@ -658,6 +689,7 @@ def check_def_grammar(ctx, only_malformed=False):
     n = 120 if ctx.tier == "quick" else 1500
     gen = lexdef.Gen(ctx.seed + 11, max_rules=3, max_depth=2, p_named=0.6, p_ctx=0.3, p_fallible=0.4, p_template=0.0)
     items = []
+    nskip = 0
     pool = ["c97", "s98", "[", "]", "(", ")", "$", "_", "|", "*", "+", "?", "#", "-", "ix", "ilet", "irule", "itype",
             "iError", "o0", "o1", "o2", "o3", "o4", "o10", "{", "}"]
     while len(items) < n:
@@ -681,7 +713,10 @@ def check_def_grammar(ctx, only_malformed=False):
                     ok = False
                     break
         if ok and not depth:
-            items.append((" ".join(ws), "perturbed"))
+            if def_stream_in_scope(ws):
+                items.append((" ".join(ws), "perturbed"))
+            else:
+                nskip += 1
     cmds_m = "".join("DTOKS %s\n" % t for t, _ in items)
     cmds_i = "".join("PARSE L -> T; %s\n" % toks_to_rust(t) for t, _ in items)
     model = run_lexmodel(cmds_m).split("\n")
@@ -700,7 +735,8 @@ def check_def_grammar(ctx, only_malformed=False):
         nok += a.startswith("OK")
         nrej += a == "ERR"
     ctx.coverage.setdefault("distribution", {}).update({"def_token_streams": len(items), "def_accepted": nok,
-                                                        "def_rejected_by_both": nrej})
+                                                        "def_rejected_by_both": nrej,
+                                                        "def_streams_outside_model_skipped": nskip})
 
 
 def subst(r, env):
